@@ -29,13 +29,14 @@ type pairTarget struct {
 	comp  func(k int, fn func(old any, loaded bool) (any, bool)) (any, bool)
 	clear func()
 	size  func() int
+	stats func() (growths, shrinks int64)
 }
 
 var pairKinds = []string{"Map", "MapOf[int,val]", "MapOf[string,val]/mix", "MapOf[skey,val]/sameh2", "Cache", "CacheOf[int,val]"}
 
 func newPairTarget(kind string) *pairTarget {
 	st := newStallTarget(rng{}, kind, 2048)
-	t := &pairTarget{name: kind, load: st.load[0], store: st.store, del: st.del, comp: st.compute, clear: st.clear, size: st.size}
+	t := &pairTarget{name: kind, load: st.load[0], store: st.store, del: st.del, comp: st.compute, clear: st.clear, size: st.size, stats: st.stats}
 	if len(st.hit) > 0 {
 		t.los = st.hit[0]
 	}
@@ -103,6 +104,18 @@ func pairResizers() []pairResizer {
 			}
 		}, final: shr},
 		{name: "clear", base: 40, run: func(t *pairTarget) { t.clear() }, isClear: true},
+		// Clear of a table that has grown and is one delete away from its shrink
+		// threshold: a delete in flight across the Clear finishes on the retired table
+		// and asks for a shrink, quoting a table that is not the current one any more
+		{name: "clear-near-shrink", base: 8, prep: func(t *pairTarget) {
+			d := calibrateNearShrink(t.name)
+			for k := 1000; k < 1800; k++ {
+				t.store(k, mkVal(k, int64(k)))
+			}
+			for k := 1000; k < 1000+d-1; k++ {
+				t.del(k)
+			}
+		}, run: func(t *pairTarget) { t.clear() }, isClear: true},
 		// the table is replaced twice and ends up with its old length (and a new identity)
 		// while the writer is suspended: only R's first stall points matter
 		{name: "grow-then-shrink", maxM: 2, base: 1, run: func(t *pairTarget) {
@@ -114,6 +127,35 @@ func pairResizers() []pairResizer {
 			}
 		}, final: gs},
 	}
+}
+
+// calibrateNearShrink: how many of the 800 filler keys must be deleted (on top of
+// 8 base keys) until the first shrink happens, per container kind (the two table
+// layouts have different thresholds). 0: unknown (no statistics available).
+var nearShrinkDeletes = map[string]int{}
+
+func calibrateNearShrink(kind string) int {
+	if d, ok := nearShrinkDeletes[kind]; ok {
+		return d
+	}
+	t := newPairTarget(kind)
+	for k := 0; k < 8; k++ {
+		t.store(k, mkVal(k, int64(1000+k)))
+	}
+	for k := 1000; k < 1800; k++ {
+		t.store(k, mkVal(k, int64(k)))
+	}
+	_, s0 := t.stats()
+	d := 0
+	for k := 1000; k < 1800; k++ {
+		t.del(k)
+		if _, s1 := t.stats(); s1 > s0 {
+			d = k - 1000 + 1
+			break
+		}
+	}
+	nearShrinkDeletes[kind] = d
+	return d
 }
 
 const pX = 7   // a key that is present before (stable base key)
@@ -193,6 +235,9 @@ func runPairStall(a *args, res *result) {
 				if !keepR(rz.name) {
 					continue
 				}
+				if rz.name == "clear-near-shrink" && calibrateNearShrink(kind) < 2 {
+					continue
+				}
 				for _, wr := range pairWriters() {
 					if !keepW(wr.name) {
 						continue
@@ -206,8 +251,30 @@ func runPairStall(a *args, res *result) {
 			}
 		}
 	}
+	runHarass(a, res, &unit, stuckCh)
 	vshim.SetTokenMode(false)
 	res.sample(map[string]any{"kinds": pairKinds, "resizers": []string{"grow-batch", "grow-batch-mapof", "shrink-batch", "clear"}, "writers": []string{"update", "insert", "delete", "compute-insert"}})
+}
+
+func aftermath(t *pairTarget) (msg string) {
+	defer func() {
+		if p := recover(); p != nil {
+			msg = fmt.Sprintf("a call panics: %v", p)
+		}
+	}()
+	for i := 0; i < 10; i++ {
+		k := 1900 + i
+		v := mkVal(k, int64(i))
+		t.store(k, v)
+		if got, ok := t.load(k); !ok || got != any(v) {
+			return fmt.Sprintf("k%d = (%s,%v) right after Store", k, fmtVal(got), ok)
+		}
+		t.del(k)
+		if got, ok := t.load(k); ok {
+			return fmt.Sprintf("k%d = %s right after Delete", k, fmtVal(got))
+		}
+	}
+	return ""
 }
 
 func pairEnumerate(res *result, kind string, rz pairResizer, wr pairWriter, round int64, stuckCh chan string) {
@@ -288,6 +355,7 @@ func pairEnumerate(res *result, kind string, rz pairResizer, wr pairWriter, roun
 			}
 			// ---- resume R; it completes unless it needs something W holds
 			vshim.ArmSpinNotify()
+			vshim.SetStepBudget(1 << 23) // R either finishes, or waits for W (spin notification), or is stuck
 			rtok.Resume()
 			rFinished := false
 			stuck := ""
@@ -392,6 +460,12 @@ func pairEnumerate(res *result, kind string, rz pairResizer, wr pairWriter, roun
 					bad("Size is wrong after a resize overlapped a writer", fmt.Sprintf("Size()=%d, %d keys are present", n, want))
 					return
 				}
+			}
+			// ---- aftermath: the container must stay usable (a table left in a state that
+			// only breaks later - e.g. shrunk below its minimum - shows within a few empty-outs)
+			if msg := aftermath(t); msg != "" {
+				bad("the container is unusable after a resize overlapped a writer", msg)
+				return
 			}
 		}
 		if !parkedAnyN && missesM == 0 {
